@@ -2,10 +2,14 @@
 
 package wsutil
 
+import "io"
+
 // vChunkSrc returns exactly k bytes (k chosen per call) of data per Read.
 type vChunkSrc struct {
-	data []byte
-	pos  int
+	data    []byte
+	pos     int
+	withErr int // 0: (n, nil); 1: (n, io.EOF) together with the data; 2: (n, transient error)
+	lastErr error
 }
 
 func (s *vChunkSrc) Read(p []byte) (int, error) {
@@ -16,6 +20,31 @@ func (s *vChunkSrc) Read(p []byte) (int, error) {
 	n = vChoose("take", n+1) // any amount 0..n
 	copy(p, s.data[s.pos:s.pos+n])
 	s.pos += n
+	// the io.Reader contract allows data and an error in the same call
+	switch s.withErr {
+	case 1:
+		s.lastErr = io.EOF
+	case 2:
+		s.lastErr = vErrSrc
+	}
+	return n, s.lastErr
+}
+
+// vPartialDst accepts only the first k bytes of a write (k chosen), reporting a short write.
+type vPartialDst struct {
+	all   []byte
+	short bool
+}
+
+func (d *vPartialDst) Write(p []byte) (int, error) {
+	n := len(p)
+	if d.short {
+		n = vChoose("accept", len(p)+1)
+	}
+	d.all = append(d.all, p[:n]...)
+	if n < len(p) {
+		return n, io.ErrShortWrite
+	}
 	return n, nil
 }
 
@@ -34,13 +63,13 @@ func C02_stream_step() {
 	data := vBytes("d", n)
 	pm := uint64(pos) % 4
 	if vChoose("dir", 2) == 0 {
-		src := &vChunkSrc{data: data}
+		src := &vChunkSrc{data: data, withErr: vChoose("srcerr", 3)}
 		cr := NewCipherReader(src, [4]byte{})
 		cr.Reset(src, key)
 		cr.pos = pos
 		buf := make([]byte, n)
 		got, err := cr.Read(buf)
-		vAssert(err == nil, "stream.read_noerr")
+		vAssert(err == src.lastErr, "stream.read_error_passed_through")
 		vAssert(got == src.pos, "stream.read_count")
 		ok := true
 		for i := 0; i < got; i++ {
@@ -50,18 +79,19 @@ func C02_stream_step() {
 		vAssert(cr.pos == pos+got, "stream.read_pos_advances")
 		return
 	}
-	dst := &vDst{failAt: -1}
+	dst := &vPartialDst{short: vChoose("shortwrite", 2) == 1}
 	cw := NewCipherWriter(dst, [4]byte{})
 	cw.Reset(dst, key)
 	cw.pos = pos
 	keep := append([]byte{}, data...)
 	got, err := cw.Write(data)
-	vAssert(vAnd(err == nil, got == n), "stream.write_ok")
+	vAssert(got == len(dst.all), "stream.write_count_is_accepted_bytes")
+	vAssert((err == nil) == (got == n), "stream.write_error_iff_short")
 	vAssert(vEqBytes(data, keep), "stream.write_caller_intact")
-	ok := len(dst.all) == n
-	for i := 0; ok && i < n; i++ {
+	ok := true
+	for i := 0; i < len(dst.all); i++ {
 		ok = vAnd(ok, dst.all[i] == keep[i]^key[(pm+uint64(i%4))%4])
 	}
 	vAssert(ok, "stream.write_xor")
-	vAssert(cw.pos == pos+n, "stream.write_pos_advances")
+	vAssert(cw.pos == pos+got, "stream.write_pos_advances_by_accepted")
 }
